@@ -954,7 +954,8 @@ class HistogramBase(abc.ABC):
         if isinstance(other, HistogramBase):
             if other.ndim != self.ndim:
                 raise ValueError("Cannot add histograms with different dimensions.")
-            stats = getattr(self, "_stats", None)  # (Assigning the contents resets them)
+            stats = getattr(self, "_stats", None)  # (Assigning the contents resets them,
+            other_stats = getattr(other, "_stats", None)  # also in h += h)
             if self.has_same_bins(other):
                 # print("Has same!!!!!!!!!!")
                 self._coerce_dtype(other.dtype)
@@ -980,13 +981,15 @@ class HistogramBase(abc.ABC):
                 self.errors2 = self.errors2 + other.errors2
             else:
                 raise ValueError("Incompatible binning")
-            if stats is not None and hasattr(other, "_stats"):
-                self._stats = stats + other._stats
+            if stats is not None and other_stats is not None:
+                self._stats = stats + other_stats
         elif config.free_arithmetics:
-            array = np.asarray(other)
+            array = widen_weights(np.asarray(other))  # (Also negated in subtraction)
             self._coerce_dtype(array.dtype)
-            self.frequencies = self.frequencies + array
-            self.errors2 = self.errors2 + abs(array)
+            frequencies = self.frequencies + array
+            errors2 = self.errors2 + abs(array)
+            self.frequencies = frequencies
+            self.errors2 = errors2
             self._missed = self._missed * np.nan  # TODO: Any reasonable interpretation?
             self._stats = INVALID_STATISTICS
         else:
